@@ -75,6 +75,29 @@ func genC13(e *emitter, r *rng, thorough bool) {
 		}
 		e.emit("dec.valid", "b58.dec "+hx(s))
 	}
+	// every length 1..40: extreme digit strings (a fixed-width accumulator overflows at some length:
+	// 58^5 < 2^32 < 58^6, 58^10 < 2^64 < 58^11), with the leading digit swept over the whole alphabet
+	for l := 1; l <= 40; l++ {
+		for _, fill := range []byte{'z', '2', '1', 'j'} {
+			body := bytes.Repeat([]byte{fill}, l)
+			e.emit("dec.extreme", "b58.dec "+hx(body))
+		}
+		rest := randB58(r, l-1)
+		for a := 0; a < 58; a++ {
+			if !thorough && l > 14 && a%7 != l%7 {
+				continue
+			}
+			e.emit("dec.lead", "b58.dec "+hx(append([]byte{b58alphabet[a]}, bytes.Repeat([]byte{'z'}, l-1)...)))
+			e.emit("dec.lead", "b58.dec "+hx(append([]byte{b58alphabet[a]}, rest...)))
+		}
+		// and from the byte side
+		for _, fill := range []byte{0xff, 0x80, 0x01} {
+			b := bytes.Repeat([]byte{fill}, l)
+			e.emit("enc.extreme", "b58.enc "+hx(b))
+			b2 := append([]byte{0x01}, make([]byte, l-1)...)
+			e.emit("enc.extreme", "b58.enc "+hx(b2))
+		}
+	}
 	// every byte value at every position of a valid string
 	base := randB58(r, 12)
 	for pos := 0; pos < len(base); pos++ {
